@@ -121,6 +121,13 @@ func newLibDefaults() LibDefaults {
 	return l
 }
 
+// enctypeList splits a list of encryption type names: they are separated by commas or whitespace.
+func enctypeList(v string) []string {
+	return strings.FieldsFunc(v, func(r rune) bool {
+		return r == ',' || r == ' ' || r == '\t'
+	})
+}
+
 // Parse the lines of the [libdefaults] section of the configuration into the LibDefaults struct.
 func (l *LibDefaults) parseLines(lines []string) error {
 	for _, line := range lines {
@@ -171,9 +178,9 @@ func (l *LibDefaults) parseLines(lines []string) error {
 		case "default_realm":
 			l.DefaultRealm = strings.TrimSpace(p[1])
 		case "default_tgs_enctypes":
-			l.DefaultTGSEnctypes = strings.Fields(p[1])
+			l.DefaultTGSEnctypes = enctypeList(p[1])
 		case "default_tkt_enctypes":
-			l.DefaultTktEnctypes = strings.Fields(p[1])
+			l.DefaultTktEnctypes = enctypeList(p[1])
 		case "dns_canonicalize_hostname":
 			v, err := parseBoolean(p[1])
 			if err != nil {
@@ -242,7 +249,7 @@ func (l *LibDefaults) parseLines(lines []string) error {
 			}
 			l.NoAddresses = v
 		case "permitted_enctypes":
-			l.PermittedEnctypes = strings.Fields(p[1])
+			l.PermittedEnctypes = enctypeList(p[1])
 		case "preferred_preauth_types":
 			p[1] = strings.TrimSpace(p[1])
 			t := strings.Split(p[1], ",")
